@@ -376,3 +376,34 @@ def gen_foreign(rng, pool=None, shuffle=True, blanks=True, crlf=None,
             'tail_blank': rng.randint(1, 2) if blanks and rng.chance(0.2)
             else 0,
             'sections': sections}
+
+
+def gen_base_file(rng, max_changes=2, max_files=2, big=False, p_writer=0.5):
+    """A well-formed file: (producer actor spec, expected stored bytes)."""
+    if rng.chance(p_writer):
+        main, ops = gen_history(rng, max_changes=max_changes,
+                                max_files=max_files, big=big)
+        kept, m = filter_ops(main, ops)
+        return ({'id': 'P1', 'kind': 'writer', 'file': 'f1',
+                 'main_encoding': main, 'ops': ops}, m.getvalue())
+
+    spec = gen_foreign(rng, max_changes=max_changes, max_files=max_files,
+                       big=big)
+    return ({'id': 'P1', 'kind': 'raw', 'file': 'f1', 'foreign': spec},
+            R.render_foreign(spec))
+
+
+UNKNOWN_KEYS = ['x', 'X-y', 'my-option', 'another_option', 'length2', 'len',
+                'lengthx', 'Length', 'LENGTH', 'encodingx', 'enc', 'indent2',
+                'line-endings', 'line_ending', 'formats', 'vers', 'typ',
+                'mime', 'a', 'z9', 'k_', 'k-', 'pad']
+UNKNOWN_VALUES = ['v', 'value', '1', '0', '-1', '42', '007', '-0', '1.0',
+                  '1.5', 'abc', '/', '/x', './a', '-', '.', '_', 'a/b.c-d_e',
+                  'utf-8', 'dos', 'json', 'text/plain', '99999999999999999999',
+                  '-x', '..', 'A', '0x10', '1e3', 'True', 'None', 'nan']
+
+
+def int_corner(v):
+    """Values on which Python's int() and the integer grammar -?[0-9]+
+    disagree (stay out of the corner)."""
+    return '_' in v and v.replace('_', '').lstrip('-').isdigit()
